@@ -168,19 +168,20 @@ def flat_consts(k, acc=None):
 QUERY_TEMPLATES = [
     "A[] {B1}", "E<> {B1}", "A<> {B1}", "E[] {B1}", "{B1} --> {B2}", "A[] {B1} or {B2}",
     "sup: {I1}", "inf: {I1}, {I2}", "sup{{{B1}}}: {I1}", "inf{{{B1}}}: {I1}", "bounds: {I1}", "bounds{{{B1}}}: {I1}, {I2}",
-    "Pr[<={N1}](<> {B1})", "Pr[<={N1}]([] {B1})", "Pr[#<={N1}](<> {B1})", "Pr[cl<={N1}](<> {B1})", "Pr[<={N1}; {N2}](<> {B1})",
+    "Pr[<={N1}](<> {B1})", "Pr[<={N1}]([] {B1})", "Pr[#<={N1}](<> {B1})", "Pr[cl<={N1}](<> {B1})", "Pr[<={N1}; {R}](<> {B1})",
     "Pr[<={N1}]({B1} U {B2})", "Pr[#<={N1}]({B1} U {B2})",
     "Pr[<={N1}](<> {B1}) >= {F}", "Pr[<={N1}]([] {B1}) >= {F}", "Pr[<={N1}](<> {B1}) <= {F}", "Pr[<={N1}]([] {B1}) <= {F}",
     "Pr[<={N1}](<> {B1}) >= Pr[<={N2}](<> {B2})", "Pr[<={N1}]([] {B1}) >= Pr[#<={N2}](<> {B2})",
-    "E[<={N1}; {N2}](max: {I1})", "E[<={N1}; {N2}](min: {I1})", "E[#<={N1}; {N2}](max: {I1})", "E[<={N1}](max: {I1})", "E[cl<={N1}; {N2}](min: {I1})",
-    "simulate[<={N1}]{{{I1}, {I2}}}", "simulate[<={N1}; {N2}]{{{I1}}}", "simulate[#<={N1}]{{{I1}, {B1}}}",
-    "simulate[<={N1}; {N2}]{{{I1}}} : {N3} : {B1}", "simulate[<={N1}; {N2}]{{{I1}, {I2}}} : {B1}",
+    "E[<={N1}; {R}](max: {I1})", "E[<={N1}; {R}](min: {I1})", "E[#<={N1}; {R}](max: {I1})", "E[<={N1}](max: {I1})", "E[cl<={N1}; {R}](min: {I1})",
+    "simulate[<={N1}]{{{I1}, {I2}}}", "simulate[<={N1}; {R}]{{{I1}}}", "simulate[#<={N1}]{{{I1}, {B1}}}",
+    "simulate[<={N1}; {R}]{{{I1}}} : {N3} : {B1}", "simulate[<={N1}; {R}]{{{I1}, {I2}}} : {B1}",
     "control: A[] {B1}", "control: A<> {B1}", "control: A[{B1} U {B2}]", "control: A[{B1} W {B2}]", "E<> control: A[] {B1}",
     "control_t*({N1}, {N2}): A<> {B1}", "control_t*({N1}): A<> {B1}", "control_t*: A<> {B1}", "{{{I1}, {I2}}} control: A[] {B1}",
     "control_t*({N1}, {N2}): A[{B1} U {B2}]",
     "minE({I1})[<={N1}] : <> {B1}", "maxE({I1})[<={N1}] : <> {B1}", "minE({I1})[#<={N1}] : <> {B1}", "maxE({I1})[<={N1}] {{a}} -> {{x}} : <> {B1}",
     "minPr[<={N1}] : <> {B1}", "maxPr[<={N1}] : <> {B1}",
     "strategy S1 = control: A[] {B1}", "saveStrategy(\"f.json\", S1)", "strategy S2 = loadStrategy{{a}}->{{x}}(\"f.json\")",
+    "strategy S1 = control: A[] {B1}", "saveStrategy({PATH}, S1)", "strategy S3 = loadStrategy{{a}}->{{x}}({PATH})",
     "E<> {B1} under S1", "Pr[<={N1}](<> {B1}) under S1",
     "A[] forall (i : int[0,3]) arr[i] >= {I1}", "E<> exists (i : int[0,3]) arr[i] == {I1}", "A[] sum (i : int[0,3]) arr[i] < {I1}",
     "A[] P.s0 imply {B1}", "E<> P.s0 && {B1}", "A[] not deadlock", "E<> deadlock && {B1}",
@@ -195,10 +196,15 @@ def make_queries(ctx, tgen):
     for t in QUERY_TEMPLATES:
         for _ in range(reps):
             ints = r.sample(["a", "b", "c", "d", "e", "a + b", "c * d", "e - 1", "arr[1]", "a + 2 * b", "(c + d) * e", "-a", "b % 3 + 1"], 2)
-            bools = r.sample(["p", "q", "a < b", "c >= 2", "d == e", "p && a > 1", "q || b < 3", "!(p && q)", "a + b <= c", "e != 0"], 2)
+            bools = r.sample(["p", "q", "a < b", "c >= 2", "d == e", "p && a > 1", "q || b < 3", "!(p && q)", "a + b <= c", "e != 0",
+                              "x > 0.00001", "y < 1000000.0", "x >= 2e20 || p", "y + 0.5 < x"], 2)
             n1, n2, n3 = r.sample(range(2, 60), 3)
-            f = r.choice(["0.5", "0.25", "0.75", "0.125", "0.9"])
-            out.append(t.format(B1=bools[0], B2=bools[1], I1=ints[0], I2=ints[1], N1=n1, N2=n2, N3=n3, F=f))
+            # doubles whose text has an exponent and no fraction (1e-05), none (0.5), both (2.5e-07); explicit run counts incl. 0 and 1;
+            # file names with characters the printer escapes
+            f = r.choice(["0.5", "0.25", "0.75", "0.125", "0.9", "0.00001", "0.000001", "0.00000025", "1e-05", "2.5e-07"])
+            runs = r.choice([0, 0, 1, 1, 7, r.randint(2, 60)])
+            path = r.choice(['"f.json"', '"dir/sub dir/f.json"', '"C:\\\\strategies\\\\safe.json"', '"..\\\\reach.json"', '"a\\\\b"'])
+            out.append(t.format(B1=bools[0], B2=bools[1], I1=ints[0], I2=ints[1], N1=n1, N2=n2, N3=n3, F=f, R=runs, PATH=path))
     return out
 
 
@@ -411,6 +417,11 @@ def run_queries(ctx, b):
         elif status == "notequal" and s1 == s2 and re.search(r"[0-9]\.[0-9]", s1):
             # the two trees print identically but differ: a double constant that its 6-digit text does not determine
             ctx.finding("literal:double-printed-with-6-digits", "query %r: str() gives %r, whose double constant re-parses to another value" % (q, s1),
+                        {"query": q, "str": s1, "status": status})
+        elif "$expecting T_FLOATING" in status and re.search(r"[<>]= [0-9]+$", s1):
+            # the same defect seen where the grammar insists on a floating-point literal: a probability bound such as 0.99999975 is
+            # printed with 6 significant digits, i.e. as the integer text `1`
+            ctx.finding("literal:double-printed-with-6-digits", "query %r: str() gives %r, whose probability bound is printed as an integer (%s)" % (q, s1, status),
                         {"query": q, "str": s1, "status": status})
         elif re.search(r"\b(forall|exists|sum)\(\w+:\(", s1):
             ctx.finding("binder:quantifier-type-printed-with-type_t::str", "query %r: str() gives %r" % (q, s1), {"query": q, "str": s1, "status": status})
